@@ -16,5 +16,5 @@ ROpW == <<"CreateBucket", "DeleteBucket", "PutVersioning", "PutVersioning",
           "CreateUpload", "CreateUpload", "UploadPart", "UploadPart", "UploadPart", "UploadPartCopy", "UploadPartCopy",
           "CompleteUpload", "CompleteUpload", "CompleteUpload", "AbortUpload", "PutTagging", "PutTagging", "Transition">>
 ROpWSel == SelectSeq(ROpW, LAMBDA o : o \in Ops)
-RGenNext == Step(NoVidOf(RandCall(RW(ROpWSel), S)))
+RGenNext == GStep(NoVidOf(RandCall(RW(ROpWSel), S)))
 =============================================================================
